@@ -63,6 +63,7 @@ type mockRevocation struct {
 	vec            []revresult.Result // per certificate (leaf first); nil => all OK
 	method         revresult.RevocationMethod
 	srvErr         bool
+	noServers      bool // without srvErr: no per-server entries at all
 	mirror         bool // with srvErr: the error belongs to a second, unreachable server; the verdict came from another one
 	err            error
 	errWithResults bool // the error comes together with (harmless-looking) per-certificate results
@@ -89,6 +90,9 @@ func (m *mockRevocation) results(chain []*x509.Certificate) []*revresult.CertRev
 			sr := revresult.NewServerResult(r, "http://mock.invalid/rev", serr)
 			sr.RevocationMethod = sm
 			cr.ServerResults = []*revresult.ServerResult{sr}
+			if !m.srvErr && m.noServers {
+				cr.ServerResults = nil // a validator that reports verdicts without per-server entries
+			}
 			if m.srvErr && m.mirror {
 				// the failing server is an unreachable MIRROR (its own result: unknown); another server answered with the verdict
 				bad := revresult.NewServerResult(revresult.ResultUnknown, "http://mirror.mock.invalid/rev", serr)
@@ -185,6 +189,11 @@ func (p *mockPlugin) VerifySignature(ctx context.Context, req *pf.VerifySignatur
 			resp.VerificationResults[c] = &pf.VerificationResult{Success: true}
 		case "failure":
 			resp.VerificationResults[c] = &pf.VerificationResult{Success: false, Reason: "mock says no"}
+		default:
+			// no verdict for this capability: the key is absent - or present with nothing behind it (JSON null)
+			if p.nilEmpty {
+				resp.VerificationResults[c] = nil
+			}
 		}
 	}
 	for _, k := range p.processed {
